@@ -1,0 +1,30 @@
+//go:build !verif
+
+package gojq
+
+// Stubs for the verification hooks (see verif_hooks.go, build tag verif).
+// Without the tag every guard below is the constant false and folds away.
+
+const verifHooks = false
+
+const (
+	verifOptAssignPath = iota
+	verifOptBindExp
+	verifOptIfExp
+	verifOptIfConst
+	verifOptIndexKey
+	verifOptConstObject
+	verifOptConstArray
+	verifOptUnaryConst
+	verifOptInlineIdentity
+	verifOptInlineOne
+	verifOptIndexExp
+	verifOptTailRec
+	verifOptCodeOps
+)
+
+func verifOff(int) bool { return false }
+
+func verifInlineCase(n int) int { return n }
+
+func (env *env) verifStep(int, bool, error) {}
